@@ -56,6 +56,9 @@ func genC20(t *rapid.T) CaseC20 {
 		c.Steps = genShapePath(t, sh, false)
 		c.Key = rapid.SampledFrom(shapeKeys).Draw(t, "key")
 	}
+	if rapid.Bool().Draw(t, "specials") {
+		c.Value["sp"] = rapid.SampledFrom([]string{"a<b", "x & y", "<&>", "q>"}).Draw(t, "spv")
+	}
 	c.Tag = rapid.SampledFrom(xmlNames).Draw(t, "tag")
 	n := rapid.IntRange(1, 4).Draw(t, "dplen")
 	for i := 0; i < n; i++ {
